@@ -481,7 +481,8 @@ class ReferenceEllipsoid:
         m = self.normal_gravity_constant
         es = np.sqrt(self.second_eccentricity_squared)
         if es == 0:
-            return m
+            # Limit for a sphere: es*q0s/q0 -> 3
+            return self.gm * (1 - 1.5*m)/(self.a*self.b)
         q0 = 0.5*((1 + 3/es**2)*np.arctan(es) - 3/es)
         q0s = 3*((1 + 1/es**2)*(1 - np.arctan(es)/es)) - 1
         return self.gm * (1 - m - m*es*q0s/(6*q0))/(self.a*self.b)
@@ -512,7 +513,8 @@ class ReferenceEllipsoid:
         m = self.normal_gravity_constant
         es = np.sqrt(self.second_eccentricity_squared)
         if es == 0:
-            return m
+            # Limit for a sphere: es*q0s/q0 -> 3
+            return self.gm * (1 + m)/self.a**2
         q0 = 0.5*((1 + 3/es**2)*np.arctan(es) - 3/es)
         q0s = 3*((1 + 1/es**2)*(1 - np.arctan(es)/es)) - 1
         return self.gm * (1 + m*es*q0s/(3*q0))/self.a**2
